@@ -199,7 +199,7 @@ def check_natvis(ck, types, inst, std, m, fields, forms, recs, counters):
     ranges = None
     if cap is not None:
         ranges = {('mem', (norm.arg(0) + cap[1]).key(), cap[2]): (inst.N, None)}
-    inl = forms_inlined = m.normal_form('svn_m_inlined').expr
+    inl = m.normal_form('svn_m_inlined').expr
     for tk, ti, ii, base, t, it in plan:
         role = it['role']
         expr = it['expr']
@@ -348,6 +348,7 @@ def collect(ck, tier):
               'Type Name matches any template-argument list',
               'type names are those of clang 14 DWARF (and the same with g++\'s spelling of unsigned template arguments)',
               'LLVM 14 -O2 as the normaliser of loop-free observers (E4)',
+              norm.TOOLCHAIN_NOTE,
               'invariant N <= capacity (C02 R02.4) when comparing the natvis inlined condition with inlined ()'):
         if a not in ck.assumptions:
             ck.assumptions.append(a)
